@@ -351,37 +351,42 @@ impl datagram_pipe::Sink for IcmpSink {
         };
 
         let serialized = datagram.message.serialize();
+
+        // Register the waiter before sending: the reply may arrive (and be looked up by
+        // `IcmpForwarder::listen`) before this task runs again after `send_to`
+        {
+            let deadline = Instant::now()
+                + forwarder_shared
+                    .core_settings
+                    .icmp
+                    .as_ref()
+                    .unwrap()
+                    .request_timeout;
+            let mut listeners = forwarder_shared.listeners.lock().unwrap();
+            listeners.reply_waiters.insert(
+                echo.clone(),
+                ReplyWaiter {
+                    original_peer: datagram.meta.peer,
+                    waker_tx: self.tx.clone(),
+                },
+            );
+
+            match listeners.deadlines.entry(deadline) {
+                Entry::Vacant(e) => {
+                    e.insert(LinkedList::from([echo.clone()]));
+                    if listeners.deadlines.len() == 1 {
+                        forwarder_shared.deadline_waker_tx.notify_one();
+                    }
+                }
+                Entry::Occupied(mut e) => {
+                    e.get_mut().push_back(echo.clone());
+                }
+            }
+        }
+
         socket
             .send_to(datagram.meta.peer, datagram.ttl, &serialized)
             .await?;
-
-        let deadline = Instant::now()
-            + forwarder_shared
-                .core_settings
-                .icmp
-                .as_ref()
-                .unwrap()
-                .request_timeout;
-        let mut listeners = forwarder_shared.listeners.lock().unwrap();
-        listeners.reply_waiters.insert(
-            echo.clone(),
-            ReplyWaiter {
-                original_peer: datagram.meta.peer,
-                waker_tx: self.tx.clone(),
-            },
-        );
-
-        match listeners.deadlines.entry(deadline) {
-            Entry::Vacant(e) => {
-                e.insert(LinkedList::from([echo.clone()]));
-                if listeners.deadlines.len() == 1 {
-                    forwarder_shared.deadline_waker_tx.notify_one();
-                }
-            }
-            Entry::Occupied(mut e) => {
-                e.get_mut().push_back(echo.clone());
-            }
-        }
 
         Ok(datagram_pipe::SendStatus::Sent)
     }
